@@ -49,6 +49,12 @@ def safemap_shim_overlay(workdir):
     return {os.path.join(repo, "safemap/safemap.go"): dst}
 
 
+def ring_shim_overlay(workdir):
+    """ringbuffer.go built with the yielding shims (import lines only)."""
+    ov = shim_overlay(workdir)
+    return {k: v for k, v in ov.items() if k.endswith("ringbuffer/ringbuffer.go")}
+
+
 _SCHED_RULE = ("sched: real inbox.go+ringbuffer.go under the deterministic scheduler; systematic enumeration by iterative preemption "
                "bounding over 6 small configurations (1-2 senders x 1-2 messages, capacity 1-2, batch 1/2/4096, with and without a Stop) plus seeded "
                "random schedules over 1-3 senders x 1-4 messages, capacity 1..8, batch 1/2/3/4096; every execution is replayed step by step in the "
@@ -148,10 +154,13 @@ PROPS = {
     "C14": dict(
         lean_modules=["HW.Props.C14"],
         facts=True,
-        streams=[dict(name="ring", pkg="ringbuffer", test="TestVerifRing", shrink_key="ops")],
+        streams=[dict(name="ring", pkg="ringbuffer", test="TestVerifRing", shrink_key="ops"),
+                 dict(name="ringsched", pkg="ringbuffer", test="TestVerifRingSched", shrink_key="sched", extra_overlay=ring_shim_overlay)],
         rule="ring: every op sequence of length <= L over {push,pop,popN1,popN2} for capacities 1..3 (exhaustive) plus "
              "seeded random sequences (capacities 1..9,16,1024; phases biased to grow at every head position); "
-             "a case is non-trivial iff the model grows or wraps in it; distinct = distinct input lines",
+             "a case is non-trivial iff the model grows or wraps in it; distinct = distinct input lines; "
+             "ringsched: 2-3 goroutines x 1-4 operations on one real RingBuffer under the deterministic scheduler, ALL interleavings of 5 small programs plus seeded random programs and schedules, "
+             "each operation replayed as one atomic step of the model (linearizability in lock-acquisition order)",
         assumptions=["each RingBuffer method is one critical section of one mutex (regenerated fact ringLockShape), "
                      "so concurrent histories are linearizable with the sequential semantics proved here",
                      "capacity >= 1 and PopN argument >= 0 (the only caller passes 4096)"],
